@@ -23,5 +23,5 @@ Definition npd_iso (u11 : T) : T :=
   if o_ltb O (o_const O (-1)%Z 2%positive) u11 then (if negb (o_ltb O zero u11) then one else zero) else zero.
 Definition nz (x : T) : bool := negb (o_eqb O x zero).
 Definition npd_model (u11 u22 u33 u23 u13 u12 c00 c01 c02 c10 c11 c12 c20 c21 c22 : T) : T :=
-  if nz u22 || nz u33 || nz u23 || nz u13 || nz u12 then npd_minors c00 c01 c02 c10 c11 c12 c20 c21 c22 else npd_iso u11.
+  if nz u33 || nz u23 || nz u13 || nz u12 then npd_minors c00 c01 c02 c10 c11 c12 c20 c21 c22 else npd_iso u11.
 End Npd.
